@@ -782,6 +782,14 @@ def _oracle_live(a, ires):
                 3: "byte_len = %s" % (o[1:2],), 4: "value = value", 5: "value = as_bytes",
                 6: "value = <the caller's re-used bytearray, now %s>" % (o[1:12],)}[k]
         if k == 3:
+            if o[1] in WIDTHS and not valid(v, o[1]) and st[0] == 1 and st[1] in VALUE_ERR:
+                # narrowing to a width the present value does not fit: the unchanged setter only re-declares the width and
+                # leaves the field incoherent until the next assignment; refusing the narrowing (ValueError, field as it
+                # was) is as good -- the property speaks of assignments to `value`
+                if obs != prev:
+                    return ("C20/UnsignedByteField.byte_len/refused-but-changed",
+                            "step %d: %s was refused, yet the views changed from %s to %s" % (i, what, prev, obs))
+                continue
             if o[1] in WIDTHS:
                 if st != [0]:
                     return ("C20/UnsignedByteField.byte_len/refuses-valid", "step %d: %s refused: %s" % (i, what, st))
